@@ -62,6 +62,15 @@ def sweep(db, dbname, proj, events, rng, thorough, rep, light=False):
             # values at and next to the unit's own image of the base zero (affine offsets)
             vals[u] = sorted(set(VALUES + ([] if z == 0 else [z, z - 1.0, z + 1.0, -z])))
         pairs = [(u, w) for u in units for w in units if not light or u == w or u == base or w == base]
+        # a history before the measurements: the 'Unknown' quantity type accepts any unit labels (by design) and returns the value
+        # unchanged; asking it for one direction of some pairs must not influence the conversions of the real quantity type
+        if "Unknown" in byqt and qt != "Unknown":
+            for u, w in pairs:
+                if u < w:
+                    try:
+                        conv("Unknown", u, w, 1.0)
+                    except Exception:  # noqa
+                        pass
         fw = {}
         for u, w in pairs:
             fw[(u, w)] = [conv(qt, u, w, x) for x in vals[u]]
@@ -77,6 +86,18 @@ def sweep(db, dbname, proj, events, rng, thorough, rep, light=False):
                 arr = numpy.array(vals_u)
                 same_exact = (same_exact and list(conv(qt, u, u, list(vals_u))) == list(vals_u) and tuple(conv(qt, u, u, tuple(vals_u))) == tuple(vals_u)
                               and bool(numpy.array_equal(conv(qt, u, u, arr), arr)) and conv(qt, [(u, 1)], [(u, 1)], vals_u[1]) == vals_u[1])
+            # whole numbers in a list / tuple convert like the floats (large amounts included)
+            try:
+                ints = [600000000, 3, -7]
+                li = conv(qt, u, w, list(ints))
+                ti = conv(qt, u, w, tuple(ints))
+                for k_, iv in enumerate(ints):
+                    yf = conv(qt, u, w, float(iv))
+                    for got_ in (li[k_], ti[k_]):
+                        if ppt(abs(got_ - yf), max(abs(yf), zero_of[(u, w)])) > 1000:
+                            same_exact = False
+            except Exception:  # noqa
+                same_exact = False
             # the same pair written as (unit, exponent 1) lists is the same conversion
             worst_spell = 0
             for x, y in zip(vals_u[::2], ys[::2]):
